@@ -160,3 +160,19 @@ reg(
     TECHNIQUE="fault enumeration (every truncation point x read API) with an end-of-body monitor and a connection-reuse monitor on the in-memory network",
     REQUIRED_MONITORS={"quick": {"damaged_response": 5000, "must_detect": 3000, "second_request": 3000}, "thorough": {"damaged_response": 50000, "must_detect": 30000, "second_request": 30000}},
 )
+
+reg(
+    "C11",
+    RULE="product of body kind (None, bytes, bytearray, memoryview, array, str ASCII/non-ASCII, BytesIO, StringIO, binary file at offset 0/k/EOF, text file, read-only file-like, file-like whose tell raises, unseekable file, seekable streams that return short reads before EOF (pipe-like, RawIOBase), generator, lists with and without empty chunks, iterable of str, tuple) x size {0,1,blocksize-1,blocksize,blocksize+1,5*blocksize} (blocksize 64; default block size once) x method {GET,HEAD,DELETE,OPTIONS,POST,PUT,PATCH,custom} x chunked flag x history {ok, reset-ok, eof-ok, send-reset-ok, 503-ok, 503-503-ok, 301/307/308-ok, 307-307-ok, 303-ok, 503-307-ok} x entry {bare pool, PoolManager}; a case is that tuple; non-trivial unless body None with history ok",
+    ASSUMPTIONS=COMMON_ASSUMPTIONS + [
+        "retries use Retry(total=6, status_forcelist=[503], allowed_methods=None) so that every method is re-sent and fidelity can be observed",
+        "an empty bytes/str body counts as a body (exactly one framing header), only body=None is 'body-less'",
+    ],
+    SHARDS={"quick": 8, "thorough": 16},
+    BUDGET={"quick": 60, "thorough": 480},
+    EXHAUSTIVE={"quick": False, "thorough": True},
+    LEVEL_TEXT="Runtime monitoring at the socket boundary over the full product of body kinds, sizes, methods, chunking and attempt histories: every attempt's bytes are decoded by the independent framing parser (exactly one of Content-Length / chunked, payload = body bytes, body-less rules) and attempt n is compared byte-for-byte with attempt 1, the only accepted alternative being UnrewindableBodyError.",
+    LEVEL_NOTE="Trusts the framing parser in vf/wire.py and the generator's bookkeeping of each body's bytes; quick strides the product 1/2, thorough enumerates it completely.",
+    TECHNIQUE="wire-level runtime monitoring with an independent framing parser + cross-attempt byte-equality monitor over enumerated histories",
+    REQUIRED_MONITORS={"quick": {"case": 3000, "framing": 3000, "payload_equal": 2000, "resend_compare": 2000}, "thorough": {"case": 30000, "resend_compare": 20000}},
+)
